@@ -64,6 +64,26 @@ func finitePt(p s2.Point) bool {
 	return !math.IsNaN(p.X+p.Y+p.Z) && !math.IsInf(p.X+p.Y+p.Z, 0)
 }
 
+// probes: centre, antipode, and points at (approximately) the boundary and just inside/outside
+func capProbes(randPt func() s2.Point, cp s2.Cap) []s2.Point {
+	ctr, r := s2.VerifC19CapFields(cp)
+	out := []s2.Point{ctr, {Vector: ctr.Mul(-1)}, randPt()}
+	if r >= 0 && r <= 4 {
+		ang := 2 * math.Asin(math.Sqrt(r)/2)
+		for k := 0; k < 3; k++ {
+			dir := randPt()
+			for _, f := range []float64{1, 1 - 1e-9, 1 + 1e-9, 0.5} {
+				a := ang * f
+				if a > math.Pi {
+					a = math.Pi
+				}
+				out = append(out, s2.InterpolateAtDistance(s1.Angle(a), ctr, dir))
+			}
+		}
+	}
+	return out
+}
+
 func runC19cap(c *vkit.Collector, rng *vkit.Rng, budget int) {
 	unit := func(x, y, z float64) s2.Point { return s2.Point{Vector: r3.Vector{X: x, Y: y, Z: z}.Normalize()} }
 	randPt := func() s2.Point { return unit(rng.Range(-1, 1), rng.Range(-1, 1), rng.Range(-1, 1)) }
@@ -106,24 +126,7 @@ func runC19cap(c *vkit.Collector, rng *vkit.Rng, budget int) {
 		}
 	}
 	// probes: centre, antipode, and points at (approximately) the boundary and just inside/outside
-	around := func(cp s2.Cap) []s2.Point {
-		ctr, r := s2.VerifC19CapFields(cp)
-		out := []s2.Point{ctr, {Vector: ctr.Mul(-1)}, randPt()}
-		if r >= 0 && r <= 4 {
-			ang := 2 * math.Asin(math.Sqrt(r)/2)
-			for k := 0; k < 3; k++ {
-				dir := randPt()
-				for _, f := range []float64{1, 1 - 1e-9, 1 + 1e-9, 0.5} {
-					a := ang * f
-					if a > math.Pi {
-						a = math.Pi
-					}
-					out = append(out, s2.InterpolateAtDistance(s1.Angle(a), ctr, dir))
-				}
-			}
-		}
-		return out
-	}
+	around := func(cp s2.Cap) []s2.Point { return capProbes(randPt, cp) }
 	// regression input (run first on every tier): known finding, Cap.Union of two valid caps with
 	// nearly antipodal centres and a subnormal coordinate has a NaN centre
 	{
@@ -305,4 +308,162 @@ func runC19cap(c *vkit.Collector, rng *vkit.Rng, budget int) {
 	}
 	c.Extra["H_CAPARITH_eps"] = capEps
 	c.Extra["H_CAPARITH_max_observed_excess"] = maxExcess
+}
+
+// runC19capSpecial: empty and full caps in every valid representation, centred anywhere (also
+// antipodal to the other operand), as receiver and as argument. Oracle: an empty cap has no
+// member and a full cap has every member, so
+//
+//	x.Contains(empty), full.Contains(x)            are true,
+//	nonfull.Contains(full), empty.Contains(nonempty) are false,
+//	x.Intersects(empty), x.InteriorIntersects(empty) (either side) are false,
+//	x.Intersects(full) is true for non-empty x,
+//	Union / AddCap with an empty operand is the other operand as a point set, with a full one full,
+//	Expanded(empty) is empty, Complement(empty) is full, Complement(full) is empty.
+var knownClampReports int
+
+func runC19capSpecial(c *vkit.Collector, rng *vkit.Rng, budget int) {
+	unit := func(x, y, z float64) s2.Point { return s2.Point{Vector: r3.Vector{X: x, Y: y, Z: z}.Normalize()} }
+	randPt := func() s2.Point { return unit(rng.Range(-1, 1), rng.Range(-1, 1), rng.Range(-1, 1)) }
+	anti := func(p s2.Point) s2.Point { return s2.Point{Vector: p.Mul(-1)} }
+	centre := func(other s2.Point) s2.Point {
+		switch rng.Intn(5) {
+		case 0:
+			return other
+		case 1:
+			return anti(other)
+		case 2:
+			return unit(1, 0, 0)
+		case 3:
+			return unit(-1, 0, 0)
+		}
+		return randPt()
+	}
+	empties := func(p s2.Point) []s2.Cap {
+		return []s2.Cap{s2.EmptyCap(), s2.CapFromCenterHeight(p, -1), s2.CapFromCenterAngle(p, -1*s1.Degree),
+			s2.CapFromCenterChordAngle(p, s1.NegativeChordAngle), s2.FullCap().Complement(), s2.CapFromCenterAngle(p, math.Pi).Complement(),
+			s2.VerifC19CapRaw(p, -1e-300)}
+	}
+	fulls := func(p s2.Point) []s2.Cap {
+		return []s2.Cap{s2.FullCap(), s2.CapFromCenterHeight(p, 2), s2.CapFromCenterAngle(p, math.Pi), s2.CapFromCenterAngle(p, 4),
+			s2.CapFromCenterChordAngle(p, s1.StraightChordAngle), s2.EmptyCap().Complement(), s2.CapFromCenterHeight(p, -1).Complement()}
+	}
+	proper := func(p s2.Point) s2.Cap {
+		return s2.VerifC19CapRaw(p, rng.Pick([]float64{0, 1e-15, 0.5, 1, 2, 3, vkit.Ulps(4, -1), rng.Range(0, 4)}))
+	}
+	isEmptyO := func(x s2.Cap) bool { _, r := s2.VerifC19CapFields(x); return r < 0 }
+	isFullO := func(x s2.Cap) bool { _, r := s2.VerifC19CapFields(x); return r >= 4 }
+	samePoints := func(x, y s2.Cap, probes []s2.Point) bool {
+		xc, xr := s2.VerifC19CapFields(x)
+		yc, yr := s2.VerifC19CapFields(y)
+		for _, p := range probes {
+			inX, inY := capMemExact(xc, xr, p, 0), capMemExact(yc, yr, p, 0)
+			// differ clearly: in one by a margin, outside the other by a margin
+			if (inX && !capMemExact(yc, yr, p, 2*capEps) && capMemExact(xc, xr-2*capEps, p, 0)) ||
+				(inY && !capMemExact(xc, xr, p, 2*capEps) && capMemExact(yc, yr-2*capEps, p, 0)) {
+				return false
+			}
+		}
+		return true
+	}
+	n := 12 * budget
+	for k := 0; k < n; k++ {
+		pa := randPt()
+		if rng.Intn(4) == 0 {
+			pa = unit(1, 0, 0)
+		}
+		var as []s2.Cap
+		as = append(as, proper(pa), proper(pa))
+		as = append(as, empties(pa)[rng.Intn(7)], fulls(pa)[rng.Intn(7)])
+		for _, a := range as {
+			ac, _ := s2.VerifC19CapFields(a)
+			pb := centre(ac)
+			var bs []s2.Cap
+			bs = append(bs, empties(pb)...)
+			bs = append(bs, fulls(pb)...)
+			for bi, b := range bs {
+				if !capValidO(a) || !capValidO(b) {
+					continue
+				}
+				key := capKey(a) + "|" + capKey(b)
+				c.Eval("capS:"+key, true)
+				if isEmptyO(b) {
+					c.Class("capS:arg-empty")
+				} else {
+					c.Class("capS:arg-full")
+				}
+				bc, br := s2.VerifC19CapFields(b)
+				_, ar := s2.VerifC19CapFields(a)
+				rep := map[string]interface{}{"type": "s2.Cap", "a_center": fs(ac.X, ac.Y, ac.Z), "a_radius2": fs(ar), "b_center": fs(bc.X, bc.Y, bc.Z), "b_radius2": fs(br), "bits": key}
+				A, Bt := capTerm(a), capTerm(b)
+				if bi%3 == k%3 { // [T] on a third of the pairs, both orders
+					c.Check("capS.Contains "+key, vkit.App("Bool.eqb", vkit.App("s2_Cap_Contains", A, Bt), vkit.B(a.Contains(b))))
+					c.Check("capS.Contains' "+key, vkit.App("Bool.eqb", vkit.App("s2_Cap_Contains", Bt, A), vkit.B(b.Contains(a))))
+					c.Check("capS.Intersects "+key, vkit.App("Bool.eqb", vkit.App("s2_Cap_Intersects", A, Bt), vkit.B(a.Intersects(b))))
+					c.Check("capS.InteriorIntersects "+key, vkit.App("Bool.eqb", vkit.App("s2_Cap_InteriorIntersects", A, Bt), vkit.B(a.InteriorIntersects(b))))
+					c.Check("capS.Union "+key, vkit.App("s2_Cap_eqbits", vkit.App("s2_Cap_Union", A, Bt), capTerm(a.Union(b))))
+					c.Check("capS.AddCap "+key, vkit.App("s2_Cap_eqbits", vkit.App("s2_Cap_AddCap", A, Bt), capTerm(a.AddCap(b))))
+					c.Check("capS.AddCap' "+key, vkit.App("s2_Cap_eqbits", vkit.App("s2_Cap_AddCap", Bt, A), capTerm(b.AddCap(a))))
+				}
+				probes := append(capProbes(randPt, a), capProbes(randPt, b)...)
+				viol := func(kind, desc string) { c.Violate(kind, desc, rep) }
+				if isEmptyO(b) {
+					if !a.Contains(b) {
+						viol("cap.Contains.empty-arg", "a cap does not contain an empty cap (centred elsewhere)")
+					}
+					if !isEmptyO(a) && b.Contains(a) {
+						viol("cap.Contains.empty-receiver", "an empty cap contains a non-empty cap")
+					}
+					if a.Intersects(b) || b.Intersects(a) || a.InteriorIntersects(b) || b.InteriorIntersects(a) {
+						viol("cap.Intersects.empty-operand", "a cap intersects an empty cap")
+					}
+					for name, u := range map[string]s2.Cap{"Union": a.Union(b), "Union'": b.Union(a), "AddCap": a.AddCap(b), "AddCap'": b.AddCap(a)} {
+						if !capValidO(u) || !samePoints(u, a, probes) || isEmptyO(u) != isEmptyO(a) {
+							viol("cap."+name+".empty-operand", "union with an empty cap is not the other operand as a point set")
+						}
+					}
+					if !isEmptyO(b.Expanded(s1.Angle(rng.Pick([]float64{0, 0.1, 4})))) {
+						viol("cap.Expanded.empty", "expanding an empty cap gives a non-empty cap")
+					}
+					if !isFullO(b.Complement()) {
+						viol("cap.Complement.empty", "the complement of an empty cap is not full")
+					}
+				} else { // b full
+					if !b.Contains(a) {
+						viol("cap.Contains.full-receiver", "a full cap does not contain a cap")
+					}
+					if !isFullO(a) && !isEmptyO(a) && ar < 4-1e-9 && a.Contains(b) {
+						viol("cap.Contains.full-arg", "a cap that is clearly not full contains a full cap")
+					}
+					if !isEmptyO(a) && (!a.Intersects(b) || !b.Intersects(a)) {
+						viol("cap.Intersects.full-operand", "a non-empty cap does not intersect a full cap")
+					}
+					if !isEmptyO(a) && !b.InteriorIntersects(a) {
+						// known: radius sums are clamped to 4, and 4 > 4 is false for exactly antipodal centres
+						kind := "cap.InteriorIntersects.full-receiver"
+						if float64(s2.ChordAngleBetweenPoints(ac, bc)) == 4 {
+							kind = "cap.InteriorIntersects.antipodal-clamp"
+							knownClampReports++
+						}
+						if kind == "cap.InteriorIntersects.antipodal-clamp" && knownClampReports > 2 {
+							continue // the known finding must not crowd out other kinds (the collector keeps 20)
+						}
+						viol(kind, "the interior of a full cap does not intersect a non-empty cap")
+					}
+					for name, u := range map[string]s2.Cap{"Union": a.Union(b), "Union'": b.Union(a), "AddCap": a.AddCap(b), "AddCap'": b.AddCap(a)} {
+						_, ur := s2.VerifC19CapFields(u)
+						if !capValidO(u) || ur < 4-2*capEps {
+							viol("cap."+name+".full-operand", "union with a full cap is not full")
+						}
+					}
+					if !isEmptyO(b.Complement()) {
+						viol("cap.Complement.full", "the complement of a full cap is not empty")
+					}
+					if !isFullO(b.Expanded(s1.Angle(rng.Pick([]float64{0, 0.1, 4})))) {
+						viol("cap.Expanded.full", "expanding a full cap gives a cap that is not full")
+					}
+				}
+			}
+		}
+	}
 }
